@@ -42,6 +42,9 @@ CHECKS = {
  "C03": ("Every accepted program of the bounded exhaustive spaces: the well-typed and unspecified cells of the complete type matrix, all label / variable / placement bodies up to 3 (quick) / 5 (thorough) statements, all declaration shapes (flags x head/body x return/void x parameter lists x main/other, with callers), all orders of the members of a structure literal with constant, variable and shorthand values in constant, local and argument position, programs that cannot be executed (undefined behaviour, non-termination, no main, opaque structs), natively and for the wasm target, all 512 histories of three module kinds, and the corpus. For each, the printed IR of every module and of the linked program is fed to llvm-as-14 and opt-14 -passes=verify as separate processes (identical texts once per worker), and a linkage model is checked: every function the source defines is `define`d, main and pub functions are not private/internal.",
          "Trusted: llvm-as-14 / opt-14 (LLVM 14.0.6). In the quick tier opt -passes=verify runs on a quarter of the distinct texts (llvm-as, which also verifies, on all). The wasm builds keep the host target triple with a wasm data layout: recorded as a soft observation here (the property does not mention the triple), see C18.",
          "exhaustive enumeration of accepted programs of a small scope, each state judged by an external reference (LLVM's assembler and verifier)", "5 (C03)"),
+ "C11": ("Bounded exhaustive exploration: (a) every labelled dependency digraph (self-loops included) on 1-3 containers (quick; thorough: 4), every assignment of {constant, structure} to the containers, edges realised as constant-in-initialiser, named array length, member of structure type, size-of in a constant, and (up to 3 containers) pointer-typed members that must not count, under EVERY permutation of the declarations: acyclic <=> accepted, a cycle is rejected with E413/E415/E416, and all permutations give the same verdict; (b) every pair of declaration kinds with equal names, duplicate members and parameters (E421, E423-E426); (c) 32 type terms x 9 positions (variable, constant, parameter, struct member, word member, return type, extern parameter, extern return type, size-of operand) in four declaration orders against the documented legality rules (E350-E359), undocumented cells judged for order-independence and crashes only; (d) every word8..word128 with up to three members from 12 member types against the layout size (E380 when larger than declared).",
+         "Trusted: the graph model and the documented legality table in checks/c11.rs. Which of the three cycle codes is reported, and whether additional codes accompany it, is not judged (the property asks for rejection with a cycle code). Execution-level order independence (identical behaviour) is covered for the programs of C01/C12 only.",
+         "explicit-state enumeration of all dependency graphs of a small scope x all permutations (metamorphic order-independence oracle) plus a graph-cycle reference model", "5 (C11)"),
 }
 
 NOT_YET = {}
